@@ -270,6 +270,10 @@ SigOf(pw) ==
        ELSE IF pred = "Inv_ToldWithinAllowed" /\ emptied(w) THEN "cache-cpuset-emptied-runtime-keeps-old"
        ELSE IF pred = "Inv_ExclNotInOthersTold" /\ IsTA /\ ~\E g \in SetOf(pol'.grants) : g.c = w[2]
             THEN "other-container-holds-no-grant"
+       \* consequence of F-C05-1: a container left grant-less by a failed Update keeps its stale pinning whatever changes
+       ELSE IF pred \in {"Inv_ReservedOnlyReservedClass", "Inv_ToldWithinAllowed"} /\ IsTA /\ w \in DOMAIN ctrs'
+               /\ ~\E g \in SetOf(pol'.grants) : g.c = w
+            THEN "container-holds-no-grant"
        \* F-C13-6: an accepted configuration change re-instates existing grants verbatim even when the new configuration
        \* changes what the container is eligible for (reserved namespaces, preferSharedCPUs)
        ELSE IF pred \in {"Inv_ReservedOnlyReservedClass", "Inv_GrantMatchesEligibility"} /\ E.ev = "Reconfigure" /\ Ok
